@@ -296,6 +296,18 @@ func (w *c03World) mutate(t *c03Target, seed []byte, family string, r *core.Rand
 					w.invoke(t, "varint", splice(seed, f.off, old, enc))
 				}
 			}
+			// the honest value in each non-minimal form, with the message then cut short by 1..8 bytes (the announced
+			// bytes are almost, not quite, there)
+			for _, n := range []int{2, 4, 8} {
+				enc := varintForm(f.actual, n)
+				if enc == nil || n == old {
+					continue
+				}
+				full := splice(seed, f.off, old, enc)
+				for cut := 1; cut <= 8 && cut < len(full); cut++ {
+					w.invoke(t, "varint", full[:len(full)-cut])
+				}
+			}
 			// truncated varints of every class at the field position, nothing after
 			for _, fb := range []byte{0x00, 0x3f, 0x40, 0x7f, 0x80, 0xbf, 0xc0, 0xff} {
 				for l := 1; l <= 8; l++ {
